@@ -351,9 +351,19 @@ pub fn run(ctx: &Ctx) {
         },
     );
     ctx.subspace("proptest: sequences up to 100 ops on 2-5 nodes in each mode", n as u64, false);
+
+    // coverage-guided search over the same histories (libFuzzer target hist_c10: bytes -> operations -> this oracle);
+    // the committed corpus is replayed in-process in every tier, the campaign runs in the thorough tier
+    crate::targets::replay_corpus(ctx, "hist_c10");
+    if std::env::var("VCHECK_FUZZ").is_ok() && !ctx.quick() {
+        crate::fuzzdrv::run_campaign_par(ctx, "hist_c10", 96000, 16, 80);
+    }
 }
 
 pub fn replay(ctx: &Ctx, case: &Value) {
+    if crate::fuzzdrv::replay(ctx, case) {
+        return;
+    }
     if let Ok(c) = serde_json::from_value::<Case>(case["case"].clone()) {
         for _ in 0..2 {
             let v = run_case(ctx, &c);
